@@ -170,7 +170,10 @@ def main():
     man = {
         "version": 1,
         "setup_cmd": "/venv/bin/python -c 'import hypothesis' 2>/dev/null || /venv/bin/pip install --no-index "
-                     "--find-links /opt/veriftools/wheels hypothesis; /venv/bin/python -c 'import hypothesis, torch, numpy'",
+                     "--find-links /opt/veriftools/wheels hypothesis; "
+                     "test -d /verif/.deps/atheris || /venv/bin/pip install -q --no-index --find-links /opt/veriftools/wheels "
+                     "--target /verif/.deps atheris >/dev/null 2>&1 || true; "
+                     "/venv/bin/python -c 'import hypothesis, torch, numpy'",
         "hooks": {
             "guard": "TORCHTT_VERIF",
             "enable": "no source hooks are needed: every observation is made from outside (results, cores, version "
@@ -181,7 +184,10 @@ def main():
             "source_commits": [],
             "add_only": True,
         },
-        "engines": [{"name": "vt", "path": "vt/", "serves_properties": sorted(CLAIMED),
+        "engines": [{"name": "vt-fuzz", "path": "vt/fuzz.py", "serves_properties": ["C08", "C18"],
+                     "kind_free_text": "optional thorough-tier stage: atheris/libFuzzer with a structured byte decoder per property "
+                                       "and coverage feedback from torchtt/*; same oracle as the random tiers"},
+                    {"name": "vt", "path": "vt/", "serves_properties": sorted(CLAIMED),
                      "kind_free_text": "Hypothesis-driven sharded property runner with dense reference oracles, "
                                        "shrinking to JSON replay files"}],
         "checks": checks,
